@@ -102,6 +102,12 @@ interpolated into rich markup). The model is a model of the repaired tree.
   the both-limits family counted one stack per call where a call with an IF costs two; the depth is now the measured one.
   C19: editing the *global* configuration between two invocations in one process is not a CLI scenario (one run reads it once);
   only the project file is edited.
+* C11 (round 5): arguments beginning with a no-break or ideographic space were first put into every spelling at every depth; the
+  unchanged code treats such a line consistently only in a single-line top-level group (the white space a group's first line begins
+  with is read as part of the indentation unit; in a nested group the same line is a tab error). That inconsistency is exotic and
+  not what C11 states; the family is now exactly the single-line top-level group.
+* C04 (pre-emptive inexact-decimal family): literals that Python prints in exponent notation (`1e-05`) are not DucklingScript
+  syntax, and arithmetic on a comparison's truth value is not well-typed; both were generator errors.
 * C09 thorough sweep: the token-soup family drew `$ENTER 10^400` — the known finding D19 under another family name. A hang is
   now identified by the call site the implementation was busy in when the timer fired (`compiler/commands/enter.py:run_compile`),
   and D19 is keyed on that call site, so the same defect reached through any generator is the same finding while a hang
@@ -166,6 +172,19 @@ together, with the deepest legal chain and one more (C14-g, C14-h); folders as s
 exist, the project file edited between two runs (C19-g, C19-h); the WHILE iteration limit's trace (C10-h). One change is caught by
 the thorough tier only: C01-h (a hidden limit of 100 000 output lines; the quick tier's long script has 30 000 lines, the thorough
 tier's 120 000).
+
+Round 5 (`-i`, `-j`, twelve properties; the sub-agents were told what the formal model's domain leaves out — non-ASCII text,
+inexact decimals, huge numbers, unusual file names and YAML — and what the generators already vary) was first MISSED in thirteen of
+twenty-four cases. Again two triggers were defects of the unchanged code: a second call site of the former known finding D12
+(`DELAY 7*10^5000`: `str()` of a > 4 300-digit integer in `SimpleCommand.run_compile`) — D12 was then repaired at all its sites
+(fix: 99a4f48; the seeded C09-i, an `int(nan)` ValueError, became a MismatchError and was dropped) — and the inconsistency noted in
+§10.4 for exotic white space in nested groups (left alone, outside the properties). Built in: lines that merely contain `"""` inside
+verbatim groups under any command, indentation that looks like the unit but contains a no-break / ideographic / em space (C03-i,
+C03-j); string literals containing other quotation marks (C04-j); inexact values of `$` forms (C11-j) and exotic first-line white
+space of single-line groups (C11-i); loop bodies that change only the TYPE of a value (C06-j); arguments of thousands of digits,
+imports inside blocks not leaking functions (C07-i, C07-j); non-finite decimals in every evaluating context (C09); grouped START
+whose names climb, the same function text in two folders (C12-i, C12-j); an entry file that is a symbolic link into another
+folder (C15-j); files that sit next to the output path (C19-i).
 
 | id | property | change | caught by |
 |---|---|---|---|
